@@ -52,7 +52,7 @@ def _variants(prop, case):
     if op == "reduce":
         return [{"via": "flat", "how": "method"}, {"via": RVIAS[h % len(RVIAS)], "how": ["method", "np", "positional"][(h // 16) % 3], "pre": PRES[(h // 64) % len(PRES)]}]
     if op in ("scan", "nonzero", "col"):
-        return [{"via": "flat"}, {"via": RVIAS[h % len(RVIAS)], "how": ["method", "np"][(h // 16) % 2], "pre": PRES[(h // 64) % len(PRES)]}]
+        return [{"via": "flat"}, {"via": RVIAS[h % len(RVIAS)], "how": ["method", "np"][(h // 16) % 2], "pre": PRES[(h // 64) % len(PRES)], "axis1": bool(h & 32)}]
     if op in ("like", "pad"):
         return [{"via": "flat"}, {"via": RVIAS[h % len(RVIAS)], "pre": PRES[(h // 64) % len(PRES)]}]
     if op == "concat":
@@ -75,7 +75,8 @@ def _variants(prop, case):
     if op == "rl_getitem":
         idt = ["i8", "i1", "u1", "i2"][(h // 256) % 4]
         return [{"npint": bool(h & 1), "listkind": ["list", "array"][(h // 2) % 2], "via": "from_array", "idxdt": idt},
-                {"npint": bool(h & 1), "listkind": ["list", "array"][(h // 2) % 2], "via": RLV[1 + (h // 4) % 7], "maskvia": RLV[(h // 32) % 6], "idxdt": idt}]
+                {"npint": bool(h & 1), "listkind": ["list", "array"][(h // 2) % 2], "via": RLV[1 + (h // 4) % 7], "maskvia": RLV[(h // 32) % 6], "idxdt": idt,
+                 "spelling": ["plain", "tuple", "ellipsis"][(h // 1024) % 3]}]
     if op in ("rl_ufunc", "rl_reduce"):
         hw = ["ufunc", "operator"][h % 2] if op == "rl_ufunc" else ["np", "method"][h % 2]
         return [{"how": hw, "via": "from_array", "share": True}, {"how": hw, "via": RLV[1 + (h // 4) % 7]}]
